@@ -543,3 +543,17 @@ reg("C45", "exploration",
     "The tangent map is the harness's own quaternion map. The solver's while_loop is forward-only (documented JAX limitation). Three open known "
     "findings (norm where-trick zero gradient at rest, tendon deadband strict comparisons, NaN reverse gradient through sphere/cylinder wraps).",
     "derivative checking against finite differences of the same compiled function")
+
+reg("C37", "exploration",
+    "Seeded mutation fuzzing (byte, token, tree and numeric mutations over ~360 repository XML/URDF documents plus generated models; input #i is "
+    "a pure function of seed and i, failing bytes are saved) of mj_parseXMLString / mj_compile / mj_loadXML (+ mj_makeData and one mj_step for "
+    "small models) under ASan+UBSan and the release build, with exact-size buffers, error-buffer sizes 0..1000 and a harness-owned error hook, "
+    "so that escaped errors, uncaught C++ exceptions, exit() from the library, signals, sanitizer reports, NULL with empty error text and non-NULL "
+    "with error text are attributed per input; combined with a schema oracle: documents generated from src/xml/mjcf.schema (parsed by the tree's "
+    "own mjcf_schema.py) - conforming hosts, conforming variants and single-violation mutants of 15 rule kinds over 166 element kinds, each "
+    "labelled by an independent reference validator - and the reader's accept/reject verdict is compared with the label.",
+    "Tokenizer-level decisions belong to the stand-in XML tokenizer (trusted base). Out-of-memory class events are tolerated only for documents "
+    "that ask for resources (number >= 1000, size suffix, inf/nan); per-input cap 10 s CPU, timeouts counted (inconclusive only). The 'requires' "
+    "rule is never exercised (no instance in the schema). libFuzzer was not used. Open known findings: 28 (process-terminating inputs, "
+    "memory-safety defects while loading, schema/reader disagreements).",
+    "sanitizer-instrumented seeded mutation fuzzing with replayable inputs + schema-derived conformance/violation generation with a reference validator")
